@@ -140,6 +140,10 @@ CONSTANTS MaxScript,      \* scripts of up to this many steps
           MaxSpurious,    \* wake-ups of the task nobody asked for
           FORWARD_WAKER,  \* poll_next polls the producer with the task's own context (TRUE in the code)
           READY_DRAINS,   \* after the producer completed, the queue is still drained (TRUE in the code)
+          CHAIN_MODE,     \* "none": no script ends with "T".  "chain": a script may end with "T" -- the handler's stream is followed, through the
+                          \* adapter StreamExt::chain, by a second stream of one closing message, which is polled only when the first one is exhausted
+                          \* (the code).  "chain-eager": the adapter takes a first stream that is merely not ready for an exhausted one (a deviation:
+                          \* the closing message overtakes what the producer still has to say, and the stream ends early)
           FILTER_MODE     \* "none": the handler's stream goes to the response as it is;  "filter": through the adapter StreamExt::filter,
                           \* the producer also pushes items the predicate rejects (0 in the queue), and a rejected item makes the adapter
                           \* poll its inner stream again at once (the code);  "filter-pending": the adapter returns Pending instead,
@@ -161,7 +165,10 @@ VARIABLES
 
 vars == <<script, ip, queue, pushed, delivered, prod, waiting, fired, pcC, woken, spurious, finished>>
 
-Scripts == UNION {[1..n -> {"P", "Y"}] : n \in 0..MaxScript}
+NPush(sc) == Len(SelectSeq(sc, LAMBDA s : s \in {"P", "T"}))          \* messages of a script: its pushes, and the chained closing message
+PlainScripts(m) == UNION {[1..n -> {"P", "Y"}] : n \in 0..m}
+Scripts == PlainScripts(MaxScript) \cup (IF CHAIN_MODE = "none" THEN {} ELSE {Append(s, "T") : s \in PlainScripts(MaxScript - 1)})
+HasTail == IF script = <<>> THEN FALSE ELSE script[Len(script)] = "T"
 
 InitWith(sc) == /\ script = sc /\ ip = 1 /\ queue = <<>> /\ pushed = <<>> /\ delivered = <<>>
                 /\ prod = "running" /\ waiting = FALSE /\ fired = FALSE
@@ -174,11 +181,12 @@ CanPStill   == pcC = "pollprod" /\ prod = "running" /\ waiting /\ ~fired
 CanPCont    == pcC = "pollprod" /\ prod = "running" /\ (~waiting \/ fired)
 CanPPush    == pcC = "prodrun" /\ ip <= Len(script) /\ script[ip] = "P"
 CanPYield   == pcC = "prodrun" /\ ip <= Len(script) /\ script[ip] = "Y"
-CanPEnd     == pcC = "prodrun" /\ ip > Len(script)
+CanPEnd     == pcC = "prodrun" /\ (ip > Len(script) \/ (HasTail /\ ip = Len(script)))
 CanPDecoy   == pcC = "prodrun" /\ FILTER_MODE # "none" /\ (IF queue = <<>> THEN TRUE ELSE queue[Len(queue)] # 0)   \* (never two rejected items in a row)
 CanCDeliver == (IF queue = <<>> THEN FALSE ELSE Head(queue) # 0) /\ (pcC = "popP" \/ (pcC = "popR" /\ READY_DRAINS))
 CanCDiscard == (IF queue = <<>> THEN FALSE ELSE Head(queue) = 0) /\ (pcC = "popP" \/ (pcC = "popR" /\ READY_DRAINS))
-CanCSuspend == pcC = "popP" /\ queue = <<>>
+CanCSuspend == pcC = "popP" /\ queue = <<>> /\ ~(CHAIN_MODE = "chain-eager" /\ HasTail)
+CanCEager   == pcC = "popP" /\ queue = <<>> /\ CHAIN_MODE = "chain-eager" /\ HasTail
 CanCFinish  == pcC = "popR" /\ (queue = <<>> \/ ~READY_DRAINS)
 CanCResume  == pcC = "idle" /\ woken
 CanFire     == prod = "running" /\ waiting /\ ~fired
@@ -206,8 +214,11 @@ PYield == /\ CanPYield                         \* .await of something not ready:
           /\ ip' = ip + 1 /\ waiting' = TRUE /\ fired' = FALSE /\ pcC' = "popP"
           /\ UNCHANGED <<script, queue, pushed, delivered, prod, woken, spurious, finished>>
 PEnd == /\ CanPEnd                             \* the future returns Ready: queuing_state = None
-        /\ prod' = "done" /\ pcC' = "popR"
-        /\ UNCHANGED <<script, ip, queue, pushed, delivered, waiting, fired, woken, spurious, finished>>
+        /\ prod' = "done" /\ pcC' = "popR" /\ ip' = Len(script) + 1
+        \* (a chained closing message comes when the first stream is exhausted, i.e. behind whatever is still queued: it is one more message)
+        /\ IF HasTail THEN queue' = Append(queue, Len(pushed) + 1) /\ pushed' = Append(pushed, Len(pushed) + 1)
+                      ELSE UNCHANGED <<queue, pushed>>
+        /\ UNCHANGED <<script, delivered, waiting, fired, woken, spurious, finished>>
 
 \* ---- poll_next: queue.pop_front() under Ready / Pending, and what the send loop does with the result
 CDeliver == /\ CanCDeliver                     \* Some(value): chunk framed, written, flushed; stream.next() again
@@ -218,6 +229,9 @@ CDiscard == /\ CanCDiscard                    \* Filter::poll_next: the predicat
             /\ queue' = Tail(queue)
             /\ pcC' = IF FILTER_MODE = "filter-pending" THEN "idle" ELSE IF prod = "done" THEN "popR" ELSE "pollprod"
             /\ UNCHANGED <<script, ip, pushed, delivered, prod, waiting, fired, woken, spurious, finished>>
+CEager == /\ CanCEager                        \* the deviation: Pending taken for exhaustion -- the closing message goes out, then the stream ends
+          /\ delivered' = Append(delivered, NPush(script)) /\ finished' = TRUE /\ pcC' = "done"
+          /\ UNCHANGED <<script, ip, queue, pushed, prod, waiting, fired, woken, spurious>>
 CSuspend == /\ CanCSuspend                     \* Pending and nothing queued: the task is suspended
             /\ pcC' = "idle"
             /\ UNCHANGED <<script, ip, queue, pushed, delivered, prod, waiting, fired, woken, spurious, finished>>
@@ -237,12 +251,12 @@ Spurious == /\ CanSpurious
             /\ UNCHANGED <<script, ip, queue, pushed, delivered, prod, waiting, fired, pcC, finished>>
 
 PStep == PStill \/ PCont \/ PPush \/ PDecoy \/ PYield \/ PEnd
-CStep == CHead \/ CDeliver \/ CDiscard \/ CSuspend \/ CFinish \/ CResume
+CStep == CHead \/ CDeliver \/ CDiscard \/ CEager \/ CSuspend \/ CFinish \/ CResume
 Next == PStep \/ CStep \/ Fire \/ Spurious
 
 \* fair waking: the awaited events happen, the runtime polls a woken task, code runs on
 Fairness == /\ WF_vars(PStill) /\ WF_vars(PCont) /\ WF_vars(PPush) /\ WF_vars(PYield) /\ WF_vars(PEnd)
-            /\ WF_vars(CHead) /\ WF_vars(CDeliver) /\ WF_vars(CDiscard) /\ WF_vars(CSuspend) /\ WF_vars(CFinish) /\ WF_vars(CResume)
+            /\ WF_vars(CHead) /\ WF_vars(CDeliver) /\ WF_vars(CDiscard) /\ WF_vars(CEager) /\ WF_vars(CSuspend) /\ WF_vars(CFinish) /\ WF_vars(CResume)
             /\ WF_vars(Fire)
 Spec == Init /\ [][Next]_vars /\ Fairness
 
@@ -259,7 +273,6 @@ PrefixInv == IsPrefixOf(delivered, pushed) /\ pushed = [i \in 1..Len(pushed) |->
 QueueInv == delivered \o SelectSeq(queue, LAMBDA x : x # 0) = pushed
 \* at termination nothing is lost (also when the producer ended with a non-empty queue) and the script ran to its end
 DoneInv == finished => (delivered = pushed /\ queue = <<>> /\ ip > Len(script) /\ prod = "done")
-NPush(sc) == Len(SelectSeq(sc, LAMBDA s : s = "P"))
 \* the stream terminates, and every pushed message is eventually delivered
 Terminates == <>finished
 EveryPushDelivered == \A i \in 1..MaxScript : (Len(pushed) >= i) ~> (Len(delivered) >= i)
